@@ -104,6 +104,17 @@ def class_worker(part, codes):
             part.fail("class-str-roundtrip:%d" % code, "from_string_code(%r) != from_integer_code(%d)" % (sb, code), case)
         if not (a == b) or hash(a) != hash(b) or (a < b) or (b < a):
             part.fail("class-eq:%d" % code, "code-built and matrix-built operation %d differ under ==/hash/<" % code, case)
+        # an operation built from an integer-typed rotation matrix (the natural way to write -1/0/1) behaves the same
+        bi = SymmetryOperation(np.array(op[0], dtype=np.int64).reshape(3, 3), tm)
+        pts3 = np.array([[0.1, 0.2, 0.3], [0.9, -0.4, 1.7]])
+        pts4 = np.c_[pts3, np.ones(2)]
+        try:
+            ok_i = int(bi.integer_code) == code and str(bi) == want and np.abs(bi.apply(pts3) - b.apply(pts3)).max() < 1e-14 \
+                and np.abs(np.asarray(bi.apply(pts4))[:, :3] - b.apply(pts3)).max() < 1e-14 and np.abs(np.asarray(bi.seitz_matrix) - np.asarray(b.seitz_matrix)).max() < 1e-14
+        except Exception:
+            ok_i = False
+        if not ok_i:
+            part.fail("class-int-matrix:%d" % code, "operation %s built from an integer-typed rotation matrix differs from the float-built one (code/str/apply/seitz)" % want, case)
         # the model reader agrees with the library on the library's own string (binds the grammar)
         if symm.parse_string(sb) != op:
             part.fail("model-parse:%d" % code, "reference parser disagrees on %r" % sb, case)
